@@ -51,6 +51,8 @@ def run(ctx, rep) -> None:
     scs = crafted() + H.gen_scenarios(ctx.seed, 150 if ctx.quick else 3000, 'converge')
     # histories with late echoes of the own patch and with deletions under foreign finalizers run to quiescence, too
     scs += H.gen_scenarios(ctx.seed, 40 if ctx.quick else 1500, 'consistency') + H.gen_scenarios(ctx.seed, 40 if ctx.quick else 1500, 'finalizer')
+    # sub-handlers (their records are purged with the parent's cycle -- also when the parent gives up before every one of them has run)
+    scs += H.gen_scenarios(ctx.seed, 60 if ctx.quick else 1500, 'subs')
     scs += [sc_ for sc_ in H.gen_scenarios(0, 1600, 'finalizer') if sc_['id'] == 'finalizer-0-1507']        # the history in which F31 was found
     scs += [sc_ for sc_ in H.gen_scenarios(4, 40, 'consistency') if sc_['id'] == 'consistency-4-32']          # ... and F21
     tl = H.tlc_scenarios(ctx.seed + 2, 40 if ctx.quick else 800)     # histories and handler outcomes drawn by TLC (-simulate on Sim_Handling)
